@@ -14,11 +14,11 @@ namespace Deepali
 open Matrix
 variable {K : Type} [Field K] {d : Nat}
 
-@[simp] theorem numel_nil : numel [] = 1 := rfl
-@[simp] theorem numel_one (n : Nat) : numel [n] = n := by simp [numel]
+@[simp] theorem hbcNumel_nil : hbcNumel [] = 1 := rfl
+@[simp] theorem hbcNumel_one (n : Nat) : hbcNumel [n] = n := by simp [hbcNumel]
 
-theorem expandOK_refl (s : List Nat) : expandOK s s = true := by
-  simp [expandOK, List.all_eq_true]
+theorem hbcExpandOK_refl (s : List Nat) : hbcExpandOK s s = true := by
+  simp [hbcExpandOK, List.all_eq_true]
   intro a b h
   have := List.of_mem_zip h
   rcases List.mem_iff_getElem.mp h with ⟨i, hi, he⟩
@@ -36,7 +36,7 @@ theorem bcLeading_cases {la lb l : List Nat} (h : bcLeading la lb = .ok l) : l =
 
 /-- element-wise meaning of one batched composition step. -/
 theorem HB_matmul_elem {a b c : HB d K} (h : a.matmul b = .ok c) (i : Nat) :
-    c.elem i = (a.elem (bcPick (numel a.lead) i)).matmul (b.elem (bcPick (numel b.lead) i)) := by
+    c.elem i = (a.elem (bcPick (hbcNumel a.lead) i)).matmul (b.elem (bcPick (hbcNumel b.lead) i)) := by
   unfold HB.matmul at h
   cases hl : bcLeading a.lead b.lead with
   | error e => simp [hl, bind, Except.bind] at h
@@ -72,25 +72,19 @@ theorem bcLeading_table (n : Nat) (hn : 1 < n) :
   have h1 : ¬ (1 < 1) := by decide
   have hn' : ¬ n < 1 := by omega
   refine ⟨rfl, rfl, rfl, rfl, ?_, ?_, ?_, ?_, ?_⟩ <;>
-    simp [bcLeading, numel, expandOK, hn, h1]
+    simp [bcLeading, hbcNumel, hbcExpandOK, hn, h1]
 
 /-- different batch sizes `N ≠ M` (both > 1) are rejected. -/
 theorem bcLeading_mismatch (n m : Nat) (hn : 1 < n) (hm : 1 < m) (hne : n ≠ m) :
     bcLeading [n] [m] = .error "err:value" := by
-  simp [bcLeading, numel, hn, hm, hne]
+  simp [bcLeading, hbcNumel, hn, hm, hne]
 
-/-- `as_homogeneous_matrix` on a batch: whenever it returns, the map of every element is unchanged. -/
-theorem HB_asMatrix_apply {a c : HB d K} (h : a.asMatrix = .ok c) (i : Nat) (x : Vec d K) :
-    (c.elem i).apply x = (a.elem i).apply x ∧ c.lead = a.lead := by
-  unfold HB.asMatrix at h
-  split at h
-  · simp at h
-  · simp only [Except.ok.injEq] at h
-    subst h
-    exact ⟨toHom_apply _ _, rfl⟩
+/-- `as_homogeneous_matrix` on a batch of any leading shape keeps the map of every element. -/
+theorem HB_asMatrix_apply (a : HB d K) (i : Nat) (x : Vec d K) :
+    (a.asMatrix.elem i).apply x = (a.elem i).apply x := toHom_apply _ _
 
-theorem HB_asMatrixFixed_apply (a : HB d K) (i : Nat) (x : Vec d K) :
-    (a.asMatrixFixed.elem i).apply x = (a.elem i).apply x := toHom_apply _ _
+theorem HB_asMatrix_applyVec (a : HB d K) (i : Nat) (x : Vec d K) :
+    (a.asMatrix.elem i).applyVec x = (a.elem i).applyVec x := toHom_applyVec _ _
 
 /-- element-wise meaning of `homogeneous_transform` on batches. -/
 theorem homogeneousTransformB_rows {n : Nat} {elem : Nat → H d K} {vectors : Bool} {pshape : List Nat}
